@@ -266,3 +266,31 @@ def assign_cases(rec, hub, rng, n_cases, prop="C05"):
                 check(rec, "assign-region", np.asarray(t2.values, dtype=float), exp, tolr, vs.size // max(1, full.size), desc2, is_dyadic(vs), prop)
             except Exception as e:
                 rec.violation(M, "assign-region:raised", dict(desc2, exc=repr(e)[:300]), prop=prop)
+        # (c) a LONG dimension (a thousand or more items, not stored in ascending order) addressed by a list of a hundred or more of
+        # its items in the user's own order; the source is a plain array that VARIES along that axis: row i of the source goes to the
+        # i-th listed label, everything else stays
+        n_long = int(rng.integers(1000, 2500))
+        Ld = fd.Dimension(letter="b", name=gen.NAMES["b"], items=[int(q) for q in 5000 + rng.permutation(n_long)], dtype=int)
+        first = bool(rng.integers(0, 2))
+        dl = [Ld, U["d"]] if first else [U["d"], Ld]
+        before3 = gen.big_values(rng, tuple(len(d_.items) for d_ in dl), "dyadic")
+        t3 = fd.FlodymArray(dims=fd.DimensionSet(dim_list=dl), values=before3.copy())
+        pos3 = rng.permutation(n_long)[: int(rng.integers(100, 300))]
+        if rng.random() < 0.2:
+            pos3 = np.sort(pos3)
+        labels3 = [Ld.items[int(p_)] for p_ in pos3]
+        key3 = {("b" if rng.random() < 0.5 else Ld.name): (labels3 if rng.random() < 0.7 else np.array(labels3))}
+        rhs3 = gen.big_values(rng, (len(pos3), len(U["d"].items)) if first else (len(U["d"].items), len(pos3)), "dyadic")
+        desc3 = {"target_shape": list(before3.shape), "listed_items": len(pos3), "long_dimension_first": first}
+        rec.event(M, sig=f"assign-long-list|{before3.shape}|{len(pos3)}", cls="big|assign-long-list-key", sample=desc3)
+        try:
+            t3[key3] = rhs3
+            exp3 = before3.copy()
+            if first:
+                exp3[pos3, :] = rhs3
+            else:
+                exp3[:, pos3] = rhs3
+            if not np.array_equal(np.asarray(t3.values, dtype=float), exp3):
+                rec.violation(M, "assign-long-list:wrong-entries", dict(desc3, n_diff=int((np.asarray(t3.values, dtype=float) != exp3).sum())), prop=prop)
+        except Exception as e:
+            rec.violation(M, "assign-long-list:raised", dict(desc3, exc=repr(e)[:300]), prop=prop)
